@@ -640,7 +640,10 @@ def check_dbus_consistency(obs, final_idle_expected):
             elif member in ('recv_bundle_pop_data', 'recv_bundle_pop_file'):
                 bid = str(args[0])
                 announced = [fseq for (fseq, fbid) in rx_fin if fbid == bid and fseq < seq]
-                if err:
+                if err and member == 'recv_bundle_pop_file' and str(args[1]).startswith('no-such-dir/'):
+                    # injected storage fault: this pop may fail; the transfer is then still "not yet popped"
+                    pass
+                elif err:
                     if announced and bid not in popped_at:
                         out.append(('pop', 'pop-failed', '%s could not pop announced transfer %s: %s' % (side, bid, ret[1])))
                 else:
